@@ -338,6 +338,17 @@ func TestCorruptMask(t *testing.T) {
 		if lib.ValidMask(md, mask) {
 			t.Fatalf("harness error: corrupt mask %v is valid", mask.Paths)
 		}
+		if kind == "comma-joined" {
+			// the two paths it is made of, as the valid two-path mask they are, are used first: whatever the library
+			// remembers about masks must not confuse the two
+			split := &fieldmaskpb.FieldMask{Paths: strings.Split(mask.Paths[0], ",")}
+			if lib.ValidMask(md, split) {
+				if err := masks.NewResponseFilter(masks.WithFieldMask(split)).Validate(stored); err != nil {
+					t.Fatalf("ResponseFilter.Validate rejected the valid mask %s: %v", lib.MaskString(split), err)
+				}
+				_ = masks.NewResponseFilter(masks.WithFieldMask(lib.CloneMask(split))).FilterClone(stored)
+			}
+		}
 		err := masks.NewResponseFilter(masks.WithFieldMask(lib.CloneMask(mask))).Validate(stored)
 		if err == nil {
 			t.Fatalf("ResponseFilter.Validate accepted invalid mask %s (%s) for %s", lib.MaskString(mask), kind, md.Name())
